@@ -6,6 +6,9 @@ package main
 // ---- forwardRequest: what reaches the handler chain (C09, C02), under which ids (C01), how often (C04) ----
 //@ pure userIDKey() string = canon("X-Inverting-Proxy-User-ID")
 //@ func forwardRequest props(C09,C01,C02,C04,C07)
+//@   local client param 0 0
+//@   local hostProxy param 0 1
+//@   local request param 0 2
 //@   requires request != nil && request.Contents != nil && request.Contents.Header != nil && hostProxy != nil && client != nil
 //@   ghost served int = 0
 //@   call utils.NewResponseForwarder
@@ -25,6 +28,10 @@ package main
 
 // ---- processOneRequest: the request is fetched under this worker's ids and handed on once ----
 //@ func processOneRequest props(C01,C04,C07)
+//@   local backendID param 0 2
+//@   local client param 0 0
+//@   local hostProxy param 0 1
+//@   local requestID param 0 3
 //@   requires client != nil && hostProxy != nil
 //@   ghost reads int = 0
 //@   call utils.ReadRequest
@@ -35,6 +42,9 @@ package main
 //@     assert[C07:no-exit-on-request-path] false
 
 //@ func processOneRequest$1 props(C01,C04,C07)
+//@   local client param 0 0
+//@   local hostProxy param 1 1
+//@   local request param 0 1
 //@   at if err := forwardRequest(client, hostProxy, request); err != nil
 //@   requires request != nil && request.Contents != nil && request.Contents.Header != nil && hostProxy != nil && client != nil
 //@   ghost fwd int = 0
@@ -45,6 +55,12 @@ package main
 
 // ---- pollForNewRequests: dedup over the whole history of list replies (C04), backoff (C08), polling gate (C20) ----
 //@ func pollForNewRequests props(C04,C08,C20,C07)
+//@   local backendID param 0 3
+//@   local client param 0 1
+//@   local hostProxy param 0 2
+//@   local pollingCtx param 0 0
+//@   local previouslySeenRequests define 0 0 lru . New ( requestCacheLimit )
+//@   local retryCount var 0 0 uint
 //@   requires client != nil && hostProxy != nil && pollingCtx != nil
 //@   ghost spawned map[string]int = zero
 //@   ghost fails int = 0
@@ -108,6 +124,7 @@ package main
 //@   ensures[C20:returns-only-after-passing-check] *healthCheckFreq > 0 ==> lastOK
 
 //@ func runHealthChecks props(C20)
+//@   local badHealthChecks define 0 0 0
 //@   requires sensibleInterval()
 //@   ghost consec int = 0
 //@   call healthCheck
@@ -124,6 +141,9 @@ package main
 // 100 ms (C05: chunks are not held back), keeps httputil's default error handler (which answers 502 when the backend
 // cannot be reached, C07), and rewrites responses only through the shim-script injector and only when that is enabled.
 //@ func hostProxy props(C02,C05,C07,C13,C14)
+//@   local host param 0 1
+//@   local injectShimCode param 0 3
+//@   local shimPath param 0 2
 //@   ghost rp *httputil.ReverseProxy = nil
 //@   ghost shims int = 0
 //@   call httputil.NewSingleHostReverseProxy
@@ -169,11 +189,14 @@ package main
 //@   call time.Sleep
 //@     assert[C20:polling-cancelled-before-the-grace-period] cancelled == 1 && arg0 == *gracefulShutdownTimeout && arg0 > 0
 //@ func main$1 props(C20)
+//@   local ctx param 0 0
+//@   local requestPollingCtx define 0 0 context . WithCancel ( _ )
 //@   at if err := runAdapter(ctx, requestPollingCtx); err != nil
 //@   requires requestPollingCtx != nil
 //@   call runAdapter
 //@     assert[C20:adapter-polls-with-the-cancellable-context] arg0 == ctx && arg1 == requestPollingCtx
 //@ func runAdapter props(C20)
+//@   local requestPollingCtx param 0 1
 //@   requires requestPollingCtx != nil
 //@   ghost polls int = 0
 //@   call pollForNewRequests
